@@ -16,7 +16,8 @@ def main():
     if confirm:
         r = sh(f"PYTHONPATH={REPO} /venv/bin/python {d}/demo.py"); res["demo_clean_rc"] = r.returncode
     # evidence files belong to runs on the unchanged tree: keep them aside while the patched tree is checked
-    sh("rm -rf /verif/.cache/evidence.keep && mkdir -p /verif/.cache && cp -r /verif/evidence /verif/.cache/evidence.keep")
+    KEEP = f"/verif/.cache/evidence.keep.{os.getpid()}"
+    sh(f"rm -rf {KEEP} && mkdir -p /verif/.cache && cp -r /verif/evidence {KEEP}")
     r = sh(f"git -C {REPO} apply {patch}")
     if r.returncode != 0:
         print("patch does not apply:", r.stderr); sys.exit(2)
@@ -33,7 +34,7 @@ def main():
                                 "engine_errors": [l for l in r.stdout.splitlines() if l.startswith("ENGINE-ERROR")][:2]}
     finally:
         sh(f"git -C {REPO} checkout -- . && git -C {REPO} clean -fdq ofxtools")
-        sh("rm -rf /verif/evidence && cp -r /verif/.cache/evidence.keep /verif/evidence")
+        sh(f"rm -rf /verif/evidence && mv {KEEP} /verif/evidence")
     print(json.dumps(res, indent=1))
 
 main()
